@@ -165,6 +165,9 @@ class Runtime:
         return 0
 
     def vid(self, x: Any) -> int:
+        o = self.oid(x) if x is not None and not isinstance(x, V) else 0
+        if o:
+            return 100 + o
         if isinstance(x, V):
             if x.kind == "v" and self.vals.get(x.n) is x:
                 return x.n
@@ -173,6 +176,8 @@ class Runtime:
         return -1 if x is not None else 0
 
     def aid(self, x: Any) -> int:
+        if x is None:
+            return 0
         if isinstance(x, V) and x.kind == "a" and self.args.get(x.n) is x:
             return x.n
         return -1
@@ -235,8 +240,10 @@ class Runtime:
     def _fault_label(self, exc: BaseException) -> Any:
         return self.classify(exc)
 
-    def run_script(self, script: list, u: str) -> None:
+    def run_script(self, script: list, u: str, a: int = 0) -> None:
         for op in script:
+            if op.get("when", 0) not in (0, a):
+                continue
             if op["op"] == "call":
                 self.do_call(op, u)
             elif op["op"] == "spawn":
@@ -245,8 +252,10 @@ class Runtime:
             elif op["op"] == "await":
                 raise RuntimeError("await in a sync script")
 
-    async def run_script_async(self, script: list, u: str) -> None:
+    async def run_script_async(self, script: list, u: str, a: int = 0) -> None:
         for op in script:
+            if op.get("when", 0) not in (0, a):
+                continue
             if op["op"] == "call":
                 await self.do_call_async(op, u)
             elif op["op"] == "await":
@@ -279,9 +288,14 @@ class Runtime:
             cls = self.fn_class[f]
 
             def construct_new(x: Any) -> Any:
-                inst = cls(x)
+                self.pending_new.append(o)
+                try:
+                    inst = cls(x)
+                finally:
+                    if self.pending_new and self.pending_new[-1] == o:
+                        self.pending_new.pop()
                 self.register_obj(o, inst)
-                return None
+                return inst
 
             return construct_new
         if kind in ("static", "class"):
@@ -349,20 +363,20 @@ class Runtime:
         self.emit("ret", f, 0, 0, self.vid(result), "ret")
 
     # seen-values helpers -----------------------------------------------------
-    def _seen(self, kw: dict, owner: int) -> Any:
+    def _seen(_h, kw: dict, owner: int) -> Any:
         """Project what a contract callable received: (o, a, old, res)."""
-        o = self.oid(kw["self"]) if "self" in kw else 0
-        if "self" in kw and o == 0 and self.pending_new:
+        o = _h.oid(kw["self"]) if "self" in kw else 0
+        if "self" in kw and o == 0 and _h.pending_new:
             # the instance under construction: register on first sight
-            o = self.pending_new[-1]
-            self.register_obj(o, kw["self"])
-        a = self.aid(kw["x"]) if "x" in kw else 0
-        res = self.vid(kw["result"]) if "result" in kw else 0
+            o = _h.pending_new[-1]
+            _h.register_obj(o, kw["self"])
+        a = _h.aid(kw["x"]) if "x" in kw else 0
+        res = _h.vid(kw["result"]) if "result" in kw else 0
         old = []
         if "OLD" in kw and owner:
-            for s in self.prog["fn"][owner - 1]["snap"]:
+            for s in _h.prog["fn"][owner - 1]["snap"]:
                 try:
-                    old.append(self.vid(getattr(kw["OLD"], "s{}".format(s))))
+                    old.append(_h.vid(getattr(kw["OLD"], "s{}".format(s))))
                 except AttributeError:
                     old.append(-2)
         return o, a, old, res
@@ -376,59 +390,59 @@ class Runtime:
             truth = con["truth"][a if a >= 0 else 0]
         return truth
 
-    def cond(self, c: int, role: str, owner: int, **kw: Any) -> Any:
-        con = self.prog["con"][c - 1]
-        o, a, old, res = self._seen(kw, owner)
-        fid = self._enter()
-        self.emit("cond.in", c, o, a, 0, "", old, res)
+    def cond(_h, c: int, role: str, owner: int, **kw: Any) -> Any:
+        con = _h.prog["con"][c - 1]
+        o, a, old, res = _h._seen(kw, owner)
+        fid = _h._enter()
+        _h.emit("cond.in", c, o, a, 0, "", old, res)
         try:
-            self._maybe_fault(fid)
-            self.run_script(_as_list(con["script"]), "cond")
+            _h._maybe_fault(fid)
+            _h.run_script(_as_list(con["script"]), "cond", a)
         except HarnessAbort:
             raise
         except BaseException as exc:  # noqa
-            cls, v = self.classify(exc)
-            self.emit("cond.out", c, o, a, v, cls)
+            cls, v = _h.classify(exc)
+            _h.emit("cond.out", c, o, a, v, cls)
             raise
         rv = con["rv"]
-        owner_async = bool(owner) and self.prog["fn"][owner - 1]["async"]
+        owner_async = bool(owner) and _h.prog["fn"][owner - 1]["async"]
         if rv == "coro" and not owner_async:
-            self.emit("cond.out", c, o, a, 2, "ret")
-            coro = self._dummy_coro()
-            self.keepalive.append(coro)
+            _h.emit("cond.out", c, o, a, 2, "ret")
+            coro = _h._dummy_coro()
+            _h.keepalive.append(coro)
             return coro
         if rv == "badbool":
-            self.emit("cond.out", c, o, a, 3, "ret")
+            _h.emit("cond.out", c, o, a, 3, "ret")
             return BadBool()
-        truth = self._cond_value(c, role, o, a)
-        self.emit("cond.out", c, o, a, 1 if truth else 0, "ret")
+        truth = _h._cond_value(c, role, o, a)
+        _h.emit("cond.out", c, o, a, 1 if truth else 0, "ret")
         return truth
 
-    async def cond_async(self, c: int, role: str, owner: int, **kw: Any) -> Any:
-        con = self.prog["con"][c - 1]
-        o, a, old, res = self._seen(kw, owner)
-        fid = self._enter()
-        self.emit("cond.in", c, o, a, 0, "", old, res)
+    async def cond_async(_h, c: int, role: str, owner: int, **kw: Any) -> Any:
+        con = _h.prog["con"][c - 1]
+        o, a, old, res = _h._seen(kw, owner)
+        fid = _h._enter()
+        _h.emit("cond.in", c, o, a, 0, "", old, res)
         try:
-            self._maybe_fault(fid)
-            await self.run_script_async(_as_list(con["script"]), "cond")
+            _h._maybe_fault(fid)
+            await _h.run_script_async(_as_list(con["script"]), "cond", a)
         except HarnessAbort:
             raise
         except BaseException as exc:  # noqa
-            cls, v = self.classify(exc)
-            self.emit("cond.out", c, o, a, v, cls)
+            cls, v = _h.classify(exc)
+            _h.emit("cond.out", c, o, a, v, cls)
             raise
-        truth = self._cond_value(c, role, o, a)
-        self.emit("cond.out", c, o, a, 1 if truth else 0, "ret")
+        truth = _h._cond_value(c, role, o, a)
+        _h.emit("cond.out", c, o, a, 1 if truth else 0, "ret")
         return truth
 
-    def cond_future(self, c: int, role: str, owner: int, **kw: Any) -> Any:
+    def cond_future(_h, c: int, role: str, owner: int, **kw: Any) -> Any:
         """A sync condition returning an awaitable that is not a coroutine object."""
-        o, a, old, res = self._seen(kw, owner)
-        self._enter()
-        self.emit("cond.in", c, o, a, 0, "", old, res)
-        truth = self._cond_value(c, role, o, a)
-        self.emit("cond.out", c, o, a, 4, "ret")
+        o, a, old, res = _h._seen(kw, owner)
+        _h._enter()
+        _h.emit("cond.in", c, o, a, 0, "", old, res)
+        truth = _h._cond_value(c, role, o, a)
+        _h.emit("cond.out", c, o, a, 4, "ret")
 
         class _Fut:
             def __await__(self_inner):  # type: ignore
@@ -443,67 +457,67 @@ class Runtime:
     def _dummy_coro(self) -> Any:
         return self._dummy_coro_fn()
 
-    def cap(self, s: int, owner: int, **kw: Any) -> Any:
-        snp = self.prog["snp"][s - 1]
-        o, a, _, _ = self._seen(kw, 0)
-        fid = self._enter()
-        self.emit("cap.in", s, o, a)
+    def cap(_h, s: int, owner: int, **kw: Any) -> Any:
+        snp = _h.prog["snp"][s - 1]
+        o, a, _, _ = _h._seen(kw, 0)
+        fid = _h._enter()
+        _h.emit("cap.in", s, o, a)
         try:
-            self._maybe_fault(fid)
-            self.run_script(_as_list(snp["script"]), "cap")
+            _h._maybe_fault(fid)
+            _h.run_script(_as_list(snp["script"]), "cap", a)
         except HarnessAbort:
             raise
         except BaseException as exc:  # noqa
-            cls, v = self.classify(exc)
-            self.emit("cap.out", s, o, a, v, cls)
+            cls, v = _h.classify(exc)
+            _h.emit("cap.out", s, o, a, v, cls)
             raise
-        owner_async = bool(owner) and self.prog["fn"][owner - 1]["async"]
+        owner_async = bool(owner) and _h.prog["fn"][owner - 1]["async"]
         if snp["rv"] == "coro" and not owner_async:
-            self.emit("cap.out", s, o, a, 2, "ret")
-            coro = self._dummy_coro()
-            self.keepalive.append(coro)
+            _h.emit("cap.out", s, o, a, 2, "ret")
+            coro = _h._dummy_coro()
+            _h.keepalive.append(coro)
             return coro
-        self.emit("cap.out", s, o, a, snp["val"], "ret")
-        return self.val(snp["val"])
+        _h.emit("cap.out", s, o, a, snp["val"], "ret")
+        return _h.val(snp["val"])
 
-    async def cap_async(self, s: int, owner: int, **kw: Any) -> Any:
-        snp = self.prog["snp"][s - 1]
-        o, a, _, _ = self._seen(kw, 0)
-        fid = self._enter()
-        self.emit("cap.in", s, o, a)
+    async def cap_async(_h, s: int, owner: int, **kw: Any) -> Any:
+        snp = _h.prog["snp"][s - 1]
+        o, a, _, _ = _h._seen(kw, 0)
+        fid = _h._enter()
+        _h.emit("cap.in", s, o, a)
         try:
-            self._maybe_fault(fid)
-            await self.run_script_async(_as_list(snp["script"]), "cap")
+            _h._maybe_fault(fid)
+            await _h.run_script_async(_as_list(snp["script"]), "cap", a)
         except HarnessAbort:
             raise
         except BaseException as exc:  # noqa
-            cls, v = self.classify(exc)
-            self.emit("cap.out", s, o, a, v, cls)
+            cls, v = _h.classify(exc)
+            _h.emit("cap.out", s, o, a, v, cls)
             raise
-        self.emit("cap.out", s, o, a, snp["val"], "ret")
-        return self.val(snp["val"])
+        _h.emit("cap.out", s, o, a, snp["val"], "ret")
+        return _h.val(snp["val"])
 
-    def errf(self, c: int, role: str, owner: int, **kw: Any) -> Any:
-        con = self.prog["con"][c - 1]
-        o, a, old, res = self._seen(kw, owner)
-        fid = self._enter()
-        self.emit("errf.in", c, o, a, 0, "", old, res)
+    def errf(_h, c: int, role: str, owner: int, **kw: Any) -> Any:
+        con = _h.prog["con"][c - 1]
+        o, a, old, res = _h._seen(kw, owner)
+        fid = _h._enter()
+        _h.emit("errf.in", c, o, a, 0, "", old, res)
         try:
-            self._maybe_fault(fid)
-            self.run_script(_as_list(con["escript"]), "errf")
+            _h._maybe_fault(fid)
+            _h.run_script(_as_list(con["escript"]), "errf", a)
         except HarnessAbort:
             raise
         except BaseException as exc:  # noqa
-            cls, v = self.classify(exc)
-            self.emit("errf.out", c, o, a, v, cls)
+            cls, v = _h.classify(exc)
+            _h.emit("errf.out", c, o, a, v, cls)
             raise
         if con["err"] == "factory":
             exc = ErrFact("fact{}".format(c))
             exc.c = c  # type: ignore
-            self.last_fact[c] = exc
-            self.emit("errf.out", c, o, a, 1, "ret")
+            _h.last_fact[c] = exc
+            _h.emit("errf.out", c, o, a, 1, "ret")
             return exc
-        self.emit("errf.out", c, o, a, 0, "ret")
+        _h.emit("errf.out", c, o, a, 0, "ret")
         return "not an exception"
 
     def _body_common_in(self, f: int, self_obj: Any, x: Any) -> Any:
@@ -520,7 +534,7 @@ class Runtime:
         return fn, o, a, fid
 
     def _body_out(self, fn: dict, f: int, o: int, a: int, self_obj: Any) -> Any:
-        out = fn["out"][a - 1]
+        out = fn["out"][a if a >= 0 else 0]
         if fn["setst"] > 0 and self_obj is not None:
             object.__setattr__(self_obj, "_st", fn["setst"])
         if out["k"] == "ret":
@@ -535,7 +549,7 @@ class Runtime:
         fn, o, a, fid = self._body_common_in(f, self_obj, x)
         try:
             self._maybe_fault(fid)
-            self.run_script(_as_list(fn["script"]), "body")
+            self.run_script(_as_list(fn["script"]), "body", a)
         except HarnessAbort:
             raise
         except BaseException as exc:  # noqa
@@ -548,7 +562,7 @@ class Runtime:
         fn, o, a, fid = self._body_common_in(f, self_obj, x)
         try:
             self._maybe_fault(fid)
-            await self.run_script_async(_as_list(fn["script"]), "body")
+            await self.run_script_async(_as_list(fn["script"]), "body", a)
         except HarnessAbort:
             raise
         except BaseException as exc:  # noqa
